@@ -5,6 +5,8 @@
 (*               a handshake step at which the server ends the connection ("hdr" "self"   *)
 (*               "addr0/M/L" "conn" "info0/M/L"), "kill_<step>" for a server killed at    *)
 (*               that step, "exit_early" for a child process that exits before reporting  *)
+(*               "rinfo0/M/L": REAL server, runtime-info frame cut on the control          *)
+(*               connection after the backend has been spawned                            *)
 (*   scn.how     "fin" | "rst" | "na"                                                     *)
 (*   obs.outcome "returned" | "raised" | "hung" (constructor still blocked at the bound)  *)
 (*   obs.id_ok   "T" iff the returned worker's id names a child that was really started   *)
